@@ -171,6 +171,20 @@ func (g s1Gen) s2Query() string {
 	return "match " + a + "-" + r + "->" + b + where + " return " + strings.Join(items, ", ")
 }
 
+// countQuery: stage S1c — MATCH (n[:K…]) [WHERE p] RETURN count(n) [AS c].
+func (g s1Gen) countQuery() string {
+	var b strings.Builder
+	b.WriteString("match (n" + Pick(g.rng, []string{"", "", ":NodeKind1", ":NodeKind2:NodeKind1", ":NodeKind2"}) + ")")
+	if g.rng.Chance(1, 2) {
+		b.WriteString(" where " + g.pred(2, 0))
+	}
+	b.WriteString(" return count(n)")
+	if g.rng.Chance(1, 3) {
+		b.WriteString(" as c")
+	}
+	return b.String()
+}
+
 // chainQuery: stage S2c — a chain of two or three directed fixed hops, kinds optional, no WHERE, every variable read by the RETURN.
 func (g s1Gen) chainQuery() string {
 	k := 2 + g.rng.Intn(2)
@@ -231,5 +245,9 @@ func (c01TieSuite) Gen(rng *Rng, tier string, w *bufio.Writer, stats *Stats) {
 	for i := 0; i < n/3; i++ {
 		fmt.Fprintf(w, "# case %d s2c\nq %s %d 4 0 0\n", n+n/2+i+1, jsonQuote(g.chainQuery()), rng.Intn(1<<20))
 		stats.Inc("s2c_generated")
+	}
+	for i := 0; i < n/6; i++ {
+		fmt.Fprintf(w, "# case %d s1c\nq %s %d 4 0 0\n", n+n/2+n/3+i+1, jsonQuote(g.countQuery()), rng.Intn(1<<20))
+		stats.Inc("s1c_generated")
 	}
 }
